@@ -45,8 +45,15 @@ def storedInts : PV → Option (List Stored)
   | .ints _ l => some (l.map fun n => ⟨some n, false⟩)
   | _ => none
 
-/-- the item is a number representable in `T`. A text with a minus sign is not regarded as a
-number of an unsigned type (Rust's `u*::from_str` rejects `"-0"`; recorded as an assumption). -/
+/-- statement strength: the item is a number within the range of `T` -/
+def representableStmt (T : IntTy) (it : Stored) : Bool :=
+  match it.val with
+  | some n => decide (InRange T n)
+  | none => false
+
+/-- what the code accepts: a number within the range of `T`, not written with a minus sign when `T`
+is unsigned (Rust's `u*::from_str` rejects `"-0"`: the one point where `representable` is narrower
+than `representableStmt`; known finding `negative-zero-unsigned`). -/
 def representable (T : IntTy) (it : Stored) : Bool :=
   match it.val with
   | some n => decide (InRange T n) && (T.signed || !it.minus)
